@@ -443,6 +443,8 @@ def check(ctx):
 
 
 MUTANTS = [
+    Mutant("F22t-revert-oversized-trailers-not-absorbing", HTTP, '            receivedSize = self._receivedTrailerHeadersSize + eolIndex + 2\n            if receivedSize > self._maxTrailerHeadersSize:\n                raise _MalformedChunkedDataError("Trailer headers data is too long.")\n            self._trailerHeaders.append(self._buffer[0:eolIndex])\n            del self._buffer[0 : eolIndex + 2]\n            self._start = 0\n            self._receivedTrailerHeadersSize = receivedSize\n',
+           '            self._trailerHeaders.append(self._buffer[0:eolIndex])\n            del self._buffer[0 : eolIndex + 2]\n            self._start = 0\n            self._receivedTrailerHeadersSize += eolIndex + 2\n            if self._receivedTrailerHeadersSize > self._maxTrailerHeadersSize:\n                raise _MalformedChunkedDataError("Trailer headers data is too long.")\n', expect_rule="reject/nothing-processed-after-400"),
     Mutant("F19h-revert-huge-content-length-escapes", HTTP, "            try:\n                length = int(data)\n            except ValueError:\n                # More digits than Python is willing to convert: no request\n                # body can be that long.\n                return self._failChooseTransferDecoder()\n",
            "            length = int(data)\n", expect_rule="framing/content-length-huge"),
     Mutant("huge-content-length-error-swallowed", HTTP, "                # body can be that long.\n                return self._failChooseTransferDecoder()\n", "                # body can be that long.\n                length = 0\n",
